@@ -84,11 +84,23 @@ func stateInlineAnnotation(s *Scanner, c byte) state {
 
 	case '{':
 		return stateFoundRootValue(s, c)
+
+	case '#':
+		if !s.isInsideMultiLineAnnotation() && s.isBlockCommentStart() {
+			// A user comment block in front of the rules or the note.
+			s.switchToComment()
+			return scanContinue
+		}
 	}
 
 	s.found(lexeme.InlineAnnotationTextBegin)
 	s.step = stateInlineAnnotationText
 	return s.step(s, c)
+}
+
+// isBlockCommentStart tells whether the "#" just read is the first byte of a "###".
+func (s *Scanner) isBlockCommentStart() bool {
+	return s.index+1 < s.dataSize && s.data[s.index] == '#' && s.data[s.index+1] == '#'
 }
 
 func stateInlineAnnotationTextPrefix(s *Scanner, c byte) state {
@@ -152,10 +164,26 @@ func stateInlineAnnotationText(s *Scanner, c byte) state {
 		if !s.isInsideMultiLineAnnotation() {
 			s.found(lexeme.InlineAnnotationTextEnd)
 			s.found(lexeme.InlineAnnotationEnd)
-			s.step = stateInlineAnnotationTextSkip
+			s.step = stateInlineAnnotationTextAfter
+			return s.step(s, c)
 		}
 	}
 	return scanContinue
+}
+
+// stateInlineAnnotationTextAfter the rest of the line behind the note: a line
+// comment runs up to the line break, a comment block up to its closing "###"
+// (maybe on another line), behind which the rest of that line goes on.
+func stateInlineAnnotationTextAfter(s *Scanner, c byte) state {
+	if c == '#' {
+		if s.isBlockCommentStart() {
+			s.switchToComment()
+		} else {
+			s.step = stateInlineAnnotationTextSkip
+		}
+		return scanContinue
+	}
+	return stateInlineAnnotationTextSkip(s, c)
 }
 
 func stateInlineAnnotationTextSkip(s *Scanner, c byte) state {
